@@ -524,10 +524,20 @@ func (hc *handlerCtx) checkHandler(rep *Report, key string, vals [][]byte, build
 		}
 		msgHash = buf[33+32*len(vals) : 65+32*len(vals)]
 	}
+	// the proof LIST is itself a slice: hand the handler a window into a longer table (as a prover that keeps the paths of
+	// several withdrawals in one table would) and look at the entries behind the window afterwards
+	sentinelA, sentinelB := bytes.Repeat([]byte{0x5e}, 32), bytes.Repeat([]byte{0x7a}, 32)
+	table := make([][]byte, len(proofs)+2)
+	copy(table, proofs)
+	table[len(proofs)], table[len(proofs)+1] = sentinelA, sentinelB
+	proofs = table[:len(proofs)]
 	msg := &ophosttypes.MsgFinalizeTokenWithdrawal{Sender: c.Addr("x"), BridgeId: 1, OutputIndex: no, WithdrawalProofs: proofs, From: from, To: to, Sequence: seq,
 		Amount: sdk.NewCoin(denom, math.NewInt(1)), Version: msgVersion, StorageRoot: msgRoot, LastBlockHash: msgHash}
 	cc, _ := ch.Ctx.CacheContext()
 	_, err = hc.ms.FinalizeTokenWithdrawal(cc, msg)
+	if &table[len(proofs)][0] != &sentinelA[0] || &table[len(proofs)+1][0] != &sentinelB[0] || !bytes.Equal(sentinelA, bytes.Repeat([]byte{0x5e}, 32)) || !bytes.Equal(sentinelB, bytes.Repeat([]byte{0x7a}, 32)) {
+		rep.add(Mismatch{Kind: "pure", Fn: "MsgFinalizeTokenWithdrawal", Detail: M{"layout": key, "what": "entries of the caller's table behind the proof list were overwritten"}})
+	}
 	rep.Evaluations++
 	rep.ByFn["layout-handler"]++
 	if err != nil {
